@@ -141,6 +141,38 @@ Definition covers_checkb (want : agrid) (log : list termop) : bool :=
   | None => false
   end.
 
+(* "what is shown": for buffers whose texts consist of width-one characters the terminal after
+   the flush is exactly the overlay of the pending cells on the terminal before -- each pending
+   cell shows its own content in its own pen, everything else is untouched (the statement of
+   theorem C04_flush_grid). *)
+Definition xcell (c : cellc) : option tcell :=
+  match c with
+  | ASkip => None
+  | AErase p => Some (mkT [32] (canon_pen p))
+  | ALine p m => Some (mkT [linechar m] (canon_pen p))
+  | AChar p cp => Some (mkT [cp] (canon_pen p))
+  | AText p u k => Some (mkT [nth (Z.to_nat k) u 0] (canon_pen p))
+  end.
+Definition over (c : cellc) (d : tcell) : tcell := match xcell c with Some tc => tc | None => d end.
+
+Definition narrowb (u : list Z) : bool := forallb (fun c => cpw c =? 1) u.
+Definition grid_narrowb (want : agrid) : bool :=
+  forallb (forallb (fun c => match ac c with AText _ u _ => narrowb u | _ => true end)) want.
+
+Definition dtc : tcell := mkT [] pen_empty.
+
+Definition overlay_checkb (want : agrid) (before after : list (list tcell)) : bool :=
+  negb (grid_narrowb want) ||
+  ((length before =? length after)%nat &&
+   forallb (fun y =>
+      let brow := nthz before y [] in
+      let arow := nthz after y [] in
+      let wrow := nthz want y [] in
+      (length brow =? length arow)%nat &&
+      forallb (fun x => tcell_eqb (nthz arow x dtc) (over (ac (nthz wrow x (mkA ASkip (-1)))) (nthz brow x dtc)))
+              (zseq 0 (length brow)))
+     (zseq 0 (length before))).
+
 Definition grids_eqb (a b : list (list tcell)) : bool := list_eqb (list_eqb tcell_eqb) a b.
 
 (* the verdict on one flush: [before] the terminal before, [log] the operations the
@@ -149,7 +181,9 @@ Definition grids_eqb (a b : list (list tcell)) : bool := list_eqb (list_eqb tcel
    (2) [after] meets the cell-wise expectation for [want] over [before];
    (3) the log writes as many columns as there are pending cells;
    (4) with the cursor tracked from "unknown", the log covers exactly the pending cells, each
-       once, in row-major order (the statement of theorem C04_flush_columns). *)
+       once, in row-major order (the statement of theorem C04_flush_columns);
+   (5) if all texts of [want] consist of width-one characters, [after] is exactly the overlay
+       of the pending cells on [before] (the statement of theorem C04_flush_grid). *)
 Definition flush_checkb (want : ast) (before : term) (log : list termop) (after : list (list tcell)) : bool :=
   match t_run before log with
   | Ok t1 => grids_eqb (tg t1) after
@@ -157,7 +191,8 @@ Definition flush_checkb (want : ast) (before : term) (log : list termop) (after 
   end &&
   grid_meets (ag want) (tg before) after &&
   (log_cols log =? pending_cells (ag want)) &&
-  covers_checkb (ag want) log.
+  covers_checkb (ag want) log &&
+  overlay_checkb (ag want) (tg before) after.
 
 (* the payload check for a terminal driven through the xterm driver: the printable bytes it
    received (control sequences stripped), as code points, must be the expected cell texts in
